@@ -121,8 +121,8 @@ CLAIMED = {
             "spontaneously are aborted and counted (the registry oracle needs a known number of occurrences).",
             "DESIGN.md §3 C18"),
     "C19": ("exploration",
-            "forced-schedule property testing in virtual time (yield hook) + exhaustive placement enumeration at queue level; end-to-end latency oracle on the zero-latency virtual-time rig",
-            "Queue level: the real pollQueue/packetQueue in a synctest bubble; a yield hook parks the consumer between its emptiness check and its wait while 'window' producers run; EXHAUSTIVE over placements (<= 3 producers x {before, window, after} x 1-2 consumers x finale incl. close/reset/shutdown) and rapid over sizes/timings; oracle: every packet handed over reaches a consumer within the stated virtual bound, exactly once, FIFO; no empty poll while queued; consumers terminate. End to end: real server and client (polling, websocket, upgrade; link latency 0/1/20 ms), 1..12 emit instants with gaps 0..31 s around the 25 s heartbeat, bursts from concurrent goroutines; oracle: handler entry within 6 link traversals + 20 ms of virtual time after Emit.",
+            "forced-schedule property testing in virtual time (yield hook) + exhaustive placement enumeration at queue level; generated poll-request histories at HTTP level; end-to-end latency oracle on the zero-latency virtual-time rig",
+            "Queue level: the real pollQueue/packetQueue in a synctest bubble; a yield hook parks the consumer between its emptiness check and its wait while 'window' producers run; EXHAUSTIVE over placements (<= 3 producers x {before, window, after} x 1-2 consumers x finale incl. close/reset/shutdown) and rapid over sizes/timings; oracle: every packet handed over reaches a consumer within the stated virtual bound, exactly once, FIFO; no empty poll while queued; consumers terminate. End to end: real server and client (polling, websocket, upgrade; link latency 0/1/20 ms), 1..12 emit instants with gaps 0..31 s around the 25 s heartbeat, bursts from concurrent goroutines; oracle: handler entry within 6 link traversals + 20 ms of virtual time after Emit. During the upgrade the server emits from the yield point before the transport swap while the first Send that reaches the polling transport is held at its entry (forced schedule). HTTP level (c19-poll-requests): one long-polling session driven through ServeHTTP, 1..4 poll requests on a 100 us grid, a third abandoned by their client (request context cancelled), sends on the same grid, issued before or after the arrivals / abandonments of the same instant; oracle: while a packet is queued no poll request waits on the server for more than 50 us, every packet answered exactly once.",
             "Schedules are forced only at the hook sites; elsewhere they are those the bubble's scheduler produces.",
             "DESIGN.md §3 C19"),
 }
